@@ -56,6 +56,18 @@ impl<'a> Iterator for TokenIterator<'a> {
     }
 }
 
+/// The element symbols that a chemical formula is written with. The
+/// loader uses them to load the elements before a definition that names
+/// a formula.
+pub(crate) fn symbols_in_formula(formula: &str) -> Vec<String> {
+    TokenIterator::new(formula)
+        .filter_map(|token| match token {
+            Token::Symbol(symbol) => Some(symbol),
+            _ => None,
+        })
+        .collect()
+}
+
 /**
  * Compute the molar mass of a compound given its chemical formula.
  */
